@@ -14,6 +14,21 @@ QUIC_MODREPLACE = {"github.com/quic-go/quic-go@v0.48.2": (
     ".=textsub:now\\.After\\(s\\.nextIdleTimeoutTime\\(\\)\\)=>!now.Before(s.nextIdleTimeoutTime());"
     "internal/utils=textsub:t\\.t\\.Reset\\(time\\.Until\\(deadline\\)\\)=>t.t.Reset(time.Until(deadline) + time.Microsecond)")}
 
+# The DNSCrypt library serves UDP through *net.UDPConn with socket options and
+# out-of-band data; the simulated copy uses the net.PacketConn interface (read
+# and write with plain addresses).  The server's own assertion on the listener
+# type is relaxed in the same way by WIRE_INSTRUMENT.
+DNSCRYPT_MODREPLACE = {"github.com/ameshkov/dnscrypt/v2@v2.3.0": (
+    ".=textsub:\\*net\\.UDPConn=>net.PacketConn,"
+    "textsub:\\*dns\\.SessionUDP=>net.Addr,"
+    "textsub:w\\.sess\\.RemoteAddr\\(\\)=>w.sess,"
+    "textsub:err := setUDPSocketOptions\\(l\\)=>err := error(nil),"
+    "textsub:dns\\.ReadFromSessionUDP\\(l\\x2c b\\)=>l.ReadFrom(b),"
+    "textsub:dns\\.WriteToSessionUDP\\(w\\.udpConn\\x2c res\\x2c w\\.sess\\)=>w.udpConn.WriteTo(res\\x2c w.sess),"
+    "textsub:dns\\.WriteToSessionUDP\\(l\\x2c reply\\x2c sess\\)=>l.WriteTo(reply\\x2c sess)")}
+WIRE_MODREPLACE = dict(QUIC_MODREPLACE, **DNSCRYPT_MODREPLACE)
+WIRE_INSTRUMENT = "internal/dnsserver=textsub:s\\.udpListener\\.\\(\\*net\\.UDPConn\\)=>s.udpListener.(net.PacketConn)"
+
 PROPS = {
     "C16": {
         "engine": "billsim",
@@ -41,7 +56,7 @@ PROPS = {
     "C18": {
         "parts": [
             {"engine": "connsim", "instrument": "internal/connlimiter=locks,cond", "cfgs": ["", "multi"], "share": 3, "chunk": 4000},
-            {"engine": "wire", "cfgs": [""], "modreplace": QUIC_MODREPLACE, "share": 1, "chunk": 200},
+            {"engine": "wire", "instrument": WIRE_INSTRUMENT, "cfgs": [""], "modreplace": WIRE_MODREPLACE, "share": 1, "chunk": 200},
         ],
         "quick": {"seconds": 25, "chunk": 4000, "runs": 300000},
         "thorough": {"seconds": 600, "chunk": 20000},
@@ -170,39 +185,43 @@ PROPS = {
     },
     "C01": {
         "engine": "wire",
-        "instrument": "",
+        "instrument": WIRE_INSTRUMENT,
         "cfgs": ["", "nodrop", "nofault"],
         "det_runs": 12,
-        "modreplace": QUIC_MODREPLACE,
+        "modreplace": WIRE_MODREPLACE,
         "det_trace": False,
         "quick": {"seconds": 60, "chunk": 150, "runs": 6000, "chunk_ms": 40000, "kill_after": 300},
         "thorough": {"seconds": 1200, "chunk": 400, "kill_after": 600},
-        "rule": ("one run = six real servers (plain DNS UDP+TCP, DoT, DoH h1/h2, DoQ) on the simulated network with one "
+        "rule": ("one run = eight real listeners (plain DNS UDP+TCP, DoT, DoH h1/h2, DoQ, DNSCrypt UDP+TCP) on the simulated network with one "
                  "deterministic pipeline function as handler; 4-24 items, each a well-formed query (names: mixed case, escaped "
                  "bytes, 1-127 labels, 255 octets, root; 10 qtypes incl. 0/65535/ANY/OPT/AXFR; 6 qclasses; RD/AD/CD/Z/TC/AA bits; "
                  "EDNS with sizes 0..65535, DO, NSID/cookie/padding up to 1200 bytes/unknown options) or a non-query (QR=1, "
                  "opcodes 1-15, QDCOUNT 0/2, ANCOUNT/NSCOUNT 2, garbage, valid message cut at any offset, trailing garbage), "
-                 "every item sent over every transport (DoH as POST, GET or JSON), pipelined and grouped per connection by the "
-                 "client task's private generator; network per flow: stream segmentation down to single bytes, latencies 0-300ms "
+                 "every item sent over every transport (DoH as POST, GET or JSON; DNSCrypt sealed with a per-task client key, the "
+                 "length prefix of a DNSCrypt/TCP query deliberately split in 1 of 6 exchanges), pipelined and grouped per connection "
+                 "by the client task's private generator; stream clients also half-close with queries in flight, vanish without "
+                 "reading, or send the beginning of one more message and fall silent; the handler takes 0-900 ms per name in half "
+                 "of the runs; network per flow: stream segmentation down to single bytes, latencies 0-300ms "
                  "(reordering), datagram duplication and loss; then, faults off, a fresh query to each listener; "
                  "every run is non-trivial; distinct = distinct decision-sequence hash"),
         "assumptions": [
             "client tasks and servers are real goroutines whose interleaving the Go scheduler decides; every random choice of a task or a network flow comes from a generator private to it (seeded from the tape), so decisions replay exactly while the order of unrelated goroutines may differ",
             "a message the servers decode but drop is answered on DoQ with a bare SERVFAIL carrying its own ID and question and on DoH with HTTP 500: accepted as the transport's form of dropping",
             "queries pipelined in front of a message that makes a stream server close the connection are not judged; on DoQ/UDP a missing answer is judged only in the sub-batches without datagram loss",
-            "DNSCrypt is not simulated (its UDP server needs *net.UDPConn)",
+            "the DNSCrypt library (ameshkov/dnscrypt v2.3.0) runs in a copy that serves UDP through the net.PacketConn interface instead of *net.UDPConn with socket options; the server's own type assertion on its listener is relaxed in the same way; the DNSCrypt layer itself drops messages that are responses, do not have exactly one question or are shorter than 17 octets, which is accepted as the transport's form of dropping",
+            "KNOWN FINDING (dependency): a DNSCrypt/TCP query whose two-octet length prefix arrives in two segments gets no response; listed in known_findings.json, other exchanges on DNSCrypt/TCP send the prefix in one segment",
             "queries longer than 512 octets are not sent over plain UDP (RFC 1035 4.2.1; the server's datagram receive buffer is 512 octets and drops them), they are exercised on the stream transports",
             "quic-go v0.48.2 runs in a copy whose timers fire 1us after their deadline (it compares now with the deadline strictly, which the exact fake clock never satisfies)",
         ],
         "components": {
-            "real": ["internal/dnsserver: ServerDNS (UDP, TCP), ServerTLS, ServerHTTPS (HTTP/1.1, h2), ServerQUIC, normalize, message acceptance", "crypto/tls, net/http, x/net/http2, quic-go on the simulated network"],
+            "real": ["internal/dnsserver: ServerDNS (UDP, TCP), ServerTLS, ServerHTTPS (HTTP/1.1, h2), ServerQUIC, ServerDNSCrypt, normalize, message acceptance", "crypto/tls, net/http, x/net/http2, quic-go, ameshkov/dnscrypt (patched copy) on the simulated network"],
             "stub": ["network (simnet over netext.ListenConfig)", "handler (deterministic pipeline function)", "clock (synctest)"],
             "sim": "clock: testing/synctest; network: /verif/sim/simnet discrete-event mode with per-flow generators",
         },
     },
     "C06": {
         "parts": [
-            {"engine": "wire", "cfgs": [""], "modreplace": QUIC_MODREPLACE, "share": 2, "chunk": 150},
+            {"engine": "wire", "instrument": WIRE_INSTRUMENT, "cfgs": [""], "modreplace": WIRE_MODREPLACE, "share": 2, "chunk": 150},
             {"engine": "fwdsim", "instrument": "internal/dnsserver/forward=dial", "cfgs": [""], "share": 1, "chunk": 1500},
         ],
         "det_runs": 12,
@@ -228,21 +247,23 @@ PROPS = {
     },
     "C08": {
         "engine": "wire",
-        "instrument": "",
+        "instrument": WIRE_INSTRUMENT,
         "cfgs": [""],
         "det_runs": 12,
         "det_trace": False,
-        "modreplace": QUIC_MODREPLACE,
+        "modreplace": WIRE_MODREPLACE,
         "quick": {"seconds": 60, "chunk": 150, "runs": 4000, "chunk_ms": 40000, "kill_after": 300},
         "thorough": {"seconds": 1200, "chunk": 400, "kill_after": 600},
         "rule": ("one run = servers with a tape-chosen configured UDP maximum (0, 512, 1232, 4096, 65535) and 2-8 queries whose "
                  "name asks the handler for a response of a given size (0..66000 bytes, dense around 512, 1232, 4096 and 65535; "
                  "with or without an OPT record of the handler's own; records spread over sections), with request EDNS absent or "
                  "UDP size in {0, 300, 511, 512, 513, 1232, 4096, 65535}, DO, padding, keep-alive, NSID, unknown option; every "
-                 "query is sent over UDP, TCP, DoT, DoH and DoQ and judged on the bytes received; every run is non-trivial; "
+                 "query is sent over UDP, TCP, DoT, DoH, DoQ, DNSCrypt/UDP and DNSCrypt/TCP and judged on the bytes received (for "
+                 "DNSCrypt: the datagram as received and the message inside it); every run is non-trivial; "
                  "distinct = distinct decision-sequence hash"),
         "assumptions": [
-            "DNSCrypt (the other UDP transport of the statement) is not simulated",
+            "DNSCrypt runs through a patched copy of ameshkov/dnscrypt v2.3.0 (net.PacketConn instead of *net.UDPConn); a configured maximum of zero (which a configuration cannot have) is not judged on DNSCrypt",
+            "KNOWN FINDINGS (dependency interplay, listed in known_findings.json): the DNSCrypt envelope makes UDP datagrams exceed the limit although the message inside fits; the DNSCrypt layer sends UDP responses without name compression after the server truncated counting compression; DNSCrypt/TCP responses between 65472 and 65535 octets are cut by the DNSCrypt layer with TC set and answers kept.  A run that meets one of them goes on and judges the remaining exchanges",
             "network without faults: the dimension explored is response size x EDNS settings x configured maximum",
         ],
         "components": {
@@ -278,7 +299,7 @@ PROPS = {
     "C03": {
         "parts": [
             {"engine": "sysim", "cfgs": [""], "share": 3, "chunk": 2000},
-            {"engine": "wire", "cfgs": ["", "timed"], "modreplace": QUIC_MODREPLACE, "share": 1, "chunk": 100},
+            {"engine": "wire", "instrument": WIRE_INSTRUMENT, "cfgs": ["", "timed"], "modreplace": WIRE_MODREPLACE, "share": 1, "chunk": 100},
         ],
         "det_trace": False,
         "det_runs": 12,
